@@ -41,17 +41,30 @@ Print Assumptions C06_illegal_closes.
 (* each legal request gets exactly its response *)
 Theorem C06_request_response : forall o p,
   (ty p = PINGREQ -> step o SConnected p = (SConnected, [(13, 0, 0)])) /\
-  (ty p = SUBSCRIBE -> pid p <> 0 -> (flag p && v5 o && negb (subs_id o)) = false ->
+  (ty p = SUBSCRIBE -> pid p <> 0 -> (flag p && v5 o && negb (subs_id o)) = false -> (v5 o && (pqos p =? 1)) = false ->
      step o SConnected p = (SConnected, [(9, pid p, N.of_nat (nfilt p))])) /\
   (ty p = UNSUBSCRIBE -> pid p <> 0 ->
      step o SConnected p = (SConnected, [(11, pid p, if v5 o then N.of_nat (nfilt p) else 0)])) /\
   (ty p = DISCONNECT -> step o SConnected p = (SClosed, [])).
 Proof.
   intros o p. unfold step. repeat split; intros E; rewrite E; vm_compute admissible; cbn [negb]; try reflexivity.
-  - intros Hid Hf. apply N.eqb_neq in Hid. rewrite Hid, Hf. reflexivity.
+  - intros Hid Hf Hs. apply N.eqb_neq in Hid. rewrite Hid, Hf, Hs. reflexivity.
   - intros Hid. apply N.eqb_neq in Hid. rewrite Hid. reflexivity.
 Qed.
 Print Assumptions C06_request_response.
+
+(* a v5 SUBSCRIBE whose last filter is a shared subscription with No Local set is a protocol error, whatever
+   precedes that filter in the packet (the correspondence run probes, after a reconnect of the durable session, that
+   none of the packet's filters is subscribed: "no other effect") *)
+Theorem C06_shared_nolocal_subscribe_closes : forall o p,
+  ty p = SUBSCRIBE -> pid p <> 0 -> (flag p && negb (subs_id o)) = false -> v5 o = true -> pqos p = 1 ->
+  step o SConnected p = (SClosed, [(14, 0, 130)]).
+Proof.
+  intros o p E Hid Hf Hv Hq. unfold step, proto_error. rewrite E. vm_compute admissible. cbn [negb].
+  apply N.eqb_neq in Hid. rewrite Hid, Hv, Hq. cbn [andb N.eqb Pos.eqb].
+  destruct (flag p); cbn [andb] in *; [rewrite Hf|]; reflexivity.
+Qed.
+Print Assumptions C06_shared_nolocal_subscribe_closes.
 
 (* exactly one CONNACK, before anything else: over every packet sequence, the first non-empty
    response list is [CONNACK ..] and no later response is a CONNACK *)
